@@ -60,6 +60,19 @@ class DigestSuite(Suite):
                    "seq": s, "min": mn, "max": mx, "mc": rng.choice([0, 1, 2, 3]), "met": rng.random() < 0.6,
                    "enzyme_name": name}
 
+        # proteins longer than 256 residues (the median human protein has about 400): every mode, two enzymes, ends in a cleavage residue or not
+        for n in ([257, 300] if tier != "thorough" else [257, 258, 300, 400]):
+            for mode in MODES:
+                for name in ("trypsin", "asp-n"):
+                    e = table[name]
+                    s = "".join(rng.choice(aas) for _ in range(n))
+                    if rng.random() < 0.5:
+                        s = "M" + s[1:]
+                    if rng.random() < 0.3 and e["pre"]:
+                        s = s[:-1] + rng.choice(e["pre"])
+                    yield {"enzyme": [list(e["pre"]), list(e["not_post"]), list(e["post"])], "mode": mode, "seq": s,
+                           "min": 6, "max": rng.choice([12, 30]), "mc": rng.choice([0, 2]), "met": rng.random() < 0.6, "enzyme_name": name}
+
     def impl(self, case):
         from picked_group_fdr import digest
         e = case["enzyme"]
@@ -91,6 +104,14 @@ class DigestSuite(Suite):
 
     def shrink(self, case):
         s = case["seq"]
+        if len(s) > 80:
+            # a long protein: no residue-by-residue search (every candidate costs seconds in the kernel) - a few coarse cuts only;
+            # a failure that needs the length (a count crossing 256) then keeps its long witness
+            for cut in (s[:len(s) // 2], s[len(s) // 2:], s[:60], s[-60:]):
+                c = dict(case)
+                c["seq"] = cut
+                yield c
+            return
         for i in range(len(s)):
             if len(s) > 1:
                 c = dict(case)
